@@ -210,7 +210,7 @@ open OmplModel.ControlReconf in
 theorem sampleSteps_range {ρ : Type} (raw : ρ → ℝ × ρ) (hraw : ∀ g, 0 ≤ (raw g).1 ∧ (raw g).1 < 1)
     (a b : Nat) (g : ρ) (h : a ≤ b) :
     a ≤ (@sampleSteps ℝ ρ numReal raw a b g).1 ∧ (@sampleSteps ℝ ρ numReal raw a b g).1 ≤ b := by
-  have hb := uniformInt_bounds (Int.ofNat a) (Int.ofNat b) (raw g).1 (by exact_mod_cast h) (hraw g).1 (hraw g).2
+  have hb := uniformInt_bounds (Int.ofNat a) (Int.ofNat b) (raw g).1 (Int.ofNat_le.mpr h) (hraw g).1 (hraw g).2
   show a ≤ (uniformIntR (Int.ofNat a) (Int.ofNat b) (raw g).1).toNat ∧ (uniformIntR (Int.ofNat a) (Int.ofNat b) (raw g).1).toNat ≤ b
   have h1 : (a : Int) ≤ uniformIntR (Int.ofNat a) (Int.ofNat b) (raw g).1 := hb.1
   have h2 : uniformIntR (Int.ofNat a) (Int.ofNat b) (raw g).1 ≤ (b : Int) := hb.2
